@@ -21,6 +21,7 @@ type SolveResult struct {
 	Seconds  float64
 	Output   string
 	Model    map[string]string
+	ModelList []string
 	File     string
 	Disagree string
 	All      map[string]string
@@ -50,21 +51,42 @@ func oblFile(outDir, name string) string {
 }
 
 // Render builds the SMT script of an obligation: facts ∧ pc ∧ ¬goal.
-func (ex *Exec) Render(o *Obligation) string {
+func (ex *Exec) Render(o *Obligation) string { return ex.renderWith(o, nil) }
+
+func (ex *Exec) renderWith(o *Obligation, extra []*Term) string { return ex.renderOpt(o, extra, false, false) }
+
+// renderOpt: ground=true drops quantified facts (a relaxation used only to find candidate inputs, which must
+// then replay on the real code); negGoal=false asserts the goal positively (used by the replay confirmation).
+func (ex *Exec) renderOpt(o *Obligation, extra []*Term, ground bool, positive bool) string {
 	var asserts []*Term
+	asserts = append(asserts, extra...)
 	seen := map[int]bool{}
+	qmemo := map[int]bool{}
+	if ground {
+		ex.p.RecAsDefine = true
+		defer func() { ex.p.RecAsDefine = false }()
+	}
 	for _, f := range ex.facts[:o.NFacts] {
 		if f.IsTrue() || seen[f.id] {
+			continue
+		}
+		if ground && f.HasQuant(qmemo) {
 			continue
 		}
 		seen[f.id] = true
 		asserts = append(asserts, f)
 	}
 	asserts = append(asserts, o.PC)
-	asserts = append(asserts, ex.p.Not(o.Goal))
+	if positive {
+		asserts = append(asserts, o.Goal)
+	} else {
+		asserts = append(asserts, ex.p.Not(o.Goal))
+	}
 	var model []*Term
+	o.ModelKeys = nil
 	for _, k := range sortedInputNames(ex.inputs) {
 		model = append(model, ex.inputs[k])
+		o.ModelKeys = append(o.ModelKeys, k)
 	}
 	hdr := "(set-option :produce-models true)\n(set-logic ALL)\n"
 	return fmt.Sprintf("; obligation %s\n; %s\n; at %s\n", o.Name, strings.ReplaceAll(o.Detail, "\n", " "), o.Pos) +
@@ -114,59 +136,27 @@ func runOne(ctx context.Context, b backend, file string, timeoutS int) (string, 
 
 var valueRe = regexp.MustCompile(`\(\s*(\|[^|]*\||[^\s()]+)\s+(.+)\)\s*$`)
 
-func parseModel(out string) map[string]string {
-	m := map[string]string{}
+// parseModelList returns the values of a (get-value …) answer in order.
+func parseModelList(out string) []string {
+	var vals []string
 	lines := strings.Split(out, "\n")
 	if len(lines) < 2 {
-		return m
+		return nil
 	}
-	body := strings.Join(lines[1:], "\n")
-	// crude s-expression split of ((name value) (name value) ...)
-	body = strings.TrimSpace(body)
+	body := strings.TrimSpace(strings.Join(lines[1:], "\n"))
 	if !strings.HasPrefix(body, "(") {
-		return m
+		return nil
 	}
-	depth := 0
-	start := -1
-	for i := 0; i < len(body); i++ {
-		switch body[i] {
-		case '|':
-			j := strings.IndexByte(body[i+1:], '|')
-			if j < 0 {
-				return m
-			}
-			i += j + 1
-		case '(':
-			depth++
-			if depth == 2 {
-				start = i
-			}
-		case ')':
-			if depth == 2 && start >= 0 {
-				pair := body[start+1 : i]
-				pair = strings.TrimSpace(pair)
-				var name, val string
-				if strings.HasPrefix(pair, "|") {
-					j := strings.IndexByte(pair[1:], '|')
-					name = pair[1 : j+1]
-					val = strings.TrimSpace(pair[j+2:])
-				} else {
-					k := strings.IndexAny(pair, " \t\n")
-					if k < 0 {
-						start = -1
-						depth--
-						continue
-					}
-					name = pair[:k]
-					val = strings.TrimSpace(pair[k:])
-				}
-				m[name] = strings.Join(strings.Fields(val), " ")
-				start = -1
-			}
-			depth--
+	x := parseSx(body)
+	if x == nil {
+		return nil
+	}
+	for _, pair := range x.list {
+		if len(pair.list) == 2 {
+			vals = append(vals, pair.list[1].String())
 		}
 	}
-	return m
+	return vals
 }
 
 // Solve races the back ends; in thorough mode all are run to completion and compared.
@@ -224,7 +214,7 @@ func Solve(file string, timeoutS int, all bool, cover bool) *SolveResult {
 		res.Seconds = best.secs
 		res.Output = best.out
 		if best.status == "sat" {
-			res.Model = parseModel(best.out)
+			res.ModelList = parseModelList(best.out)
 		}
 	}
 	if len(res.Output) > 4000 {
